@@ -56,8 +56,8 @@ Min(S) == CHOOSE x \in S : \A y \in S : x <= y
 -----------------------------------------------------------------------------
 (* Ghost state *)
 \* fsmp / mp: last published Supvisors state / Master of each instance (in its current incarnation)
-\* entered[m]: master-driven states m published while being its own Master (in its current incarnation); a slave
-\*             only ever sees its Master's past, so "after its Master has" means "the Master entered it before"
+\* entered[m]: master-driven states m ever published while being its own Master; a slave only ever sees its
+\*             Master's past, so "after its Master has" means "the Master entered it before"
 \* ist[n][j]: last published state of j at n
 \* recvAt[n][j]: number of local ticks n had received when the last TICK of j was delivered to n (0: never)
 \* linc[n][j]: incarnation of j that sent the last TICK delivered to n
@@ -73,7 +73,8 @@ GhostInit == [fsmp |-> [n \in Inst |-> "OFF"], mp |-> [n \in Inst |-> 0],
               pendF |-> [n \in Inst |-> [j \in Inst |-> 0]],
               usermaster |-> [n \in Inst |-> 0]]
 
-ResetNode(g, n) == [g EXCEPT !.fsmp[n] = "OFF", !.mp[n] = 0, !.entered[n] = {},
+\* (entered is kept: a slave may still act on what the previous incarnation of its Master published)
+ResetNode(g, n) == [g EXCEPT !.fsmp[n] = "OFF", !.mp[n] = 0,
                              !.ist[n] = [j \in Inst |-> "STOPPED"],
                              !.recvAt[n] = [j \in Inst |-> 0], !.linc[n] = [j \in Inst |-> 0],
                              !.susp[n] = [j \in Inst |-> FALSE], !.pendF[n] = [j \in Inst |-> 0],
